@@ -286,7 +286,7 @@ theorem draw_uses_rendition (env : Env) (s : Screen) (c : Nat) (hw : env.W c = 1
     (hx : s.cursor.x ≠ s.columns) (hirm : s.mode IRM = false) :
     (drawChar env s c).cell s.cursor.y s.cursor.x = { data := [c], attr := s.cursor.attr } := by
   have hx' : (s.cursor.x == s.columns) = false := by simpa using hx
-  simp [drawChar, hw, hx', hirm, setCell, setCursorX]
+  simp [drawChar, putChar, irmStage, wrapStage, hw, hx', hirm, setCell, setCursorX]
 
 example : palette 196 = str "ff0000" ∧ palette 16 = str "000000" ∧ palette 255 = str "eeeeee" := by decide
 
